@@ -112,8 +112,13 @@ func objects() []obj {
 			Ingress: []wm.NPRule{{Ports: []wm.NPPort{{HasPort: true, Num: 8080}}}}}},
 		{kind: "NetworkPolicy", key: "NetworkPolicy/a/n2", variant: "", np: &wm.NP{NS: "a", Name: "n2", PodSel: *wm.ML("app", "a"), Types: []string{"Egress"},
 			Egress: []wm.NPRule{{Peers: []wm.NPPeer{{NSSel: all}}, Ports: []wm.NPPort{{HasPort: true, Num: 80}}}}}},
+		// policyTypes omitted: the policy governs egress because it has egress rules
+		{kind: "NetworkPolicy", key: "NetworkPolicy/a/n2", variant: "types-omitted", np: &wm.NP{NS: "a", Name: "n2", PodSel: *wm.ML("app", "a"),
+			Egress: []wm.NPRule{{Peers: []wm.NPPeer{{NSSel: all}}, Ports: []wm.NPPort{{HasPort: true, Num: 8080}}}}}},
 		{kind: "ANP", key: "ANP//a5", variant: "allow80@5", anp: &wm.ANP{Name: "a5", Prio: 5, Subject: subjB, Ingress: []wm.ARule{allow}}},
 		{kind: "ANP", key: "ANP//a10", variant: "deny@10", anp: &wm.ANP{Name: "a10", Prio: 10, Subject: subjB, Ingress: []wm.ARule{deny}}},
+		// a third ANP: removing one of three must keep the other two in priority order
+		{kind: "ANP", key: "ANP//a20", variant: "allowall@20", anp: &wm.ANP{Name: "a20", Prio: 20, Subject: subjB, Ingress: []wm.ARule{{Action: "Allow", Peers: []wm.APeer{{Namespaces: all}}}}}},
 		{kind: "BANP", key: "BANP//default", variant: "deny", banp: &wm.ANP{Name: "default", Subject: subjB, Ingress: []wm.ARule{deny}}},
 	}
 }
@@ -457,6 +462,7 @@ func seeds(alpha []op) [][]*op {
 		pick(append(append([]string{}, full[:5]...), "ins:ANP//a10#deny@10", "ins:ANP//a5#allow80@5", "ins:BANP//default#deny")...),
 		pick(append(append([]string{}, full...), "q:a/p1,default/p3,tcp,80", "q:a/p1,default/p3,tcp,8080", "q:default/p3,a/p1,tcp,80")...),
 		pick("ins:Pod/a/p1#app=a", "ins:Pod/default/p3#http80", "ins:Pod/default/p4#noowner", "ins:BANP//default#deny"),
+		pick("ins:Pod/a/p1#app=a", "ins:Pod/default/p3#http80", "ins:ANP//a20#allowall@20", "ins:ANP//a5#allow80@5", "ins:ANP//a10#deny@10", "q:a/p1,default/p3,tcp,8080"),
 	}
 }
 
@@ -464,7 +470,7 @@ func Run(r *fw.Run) {
 	r.Rule = "states = canonical dumps of every private field of the real PolicyEngine (objects, owner maps, ANP order, BANP, cache keys and values) reached by operation histories; transitions = every operation of the alphabet (inserts/updates, deletes incl. absent objects, equal copies and retained pointers, queries) applied in every distinct state; invariant in every state: every query equals a fresh engine on the current objects and the reference semantics, and no operation panics"
 	r.Assume = []string{
 		"merging histories with equal dumps is sound because the dump is the whole state the methods read; LRU recency is excluded (the default capacity 500 is never reached by the <=40 keys a scope can create)",
-		"operation alphabet of DESIGN §3 C15 (2 namespaces, 4 pods incl. variants, 2 NetworkPolicies, 2 ANPs, BANP, 6 queries)",
+		"operation alphabet of DESIGN §3 C15 extended (2 namespaces, 4 pods and a Deployment incl. variants, 2 NetworkPolicies incl. one without namespace and one without policyTypes, 3 ANPs, BANP, 7 queries, SetResources / ClearResources)",
 		"cache debug mode (hit log file) is switched off by the overlay hook except in the designated scope",
 	}
 	alpha := ops()
@@ -524,7 +530,11 @@ func Run(r *fw.Run) {
 		frontier := [][]*op{seed}
 		complete := true
 		var seq int64
-		for d := 0; d <= depth && len(frontier) > 0; d++ {
+		seedDepth := depth
+		if r.Quick() && si >= 2 {
+			seedDepth = depth - 1 // quick tier: the pre-populated seeds beyond the first are searched one level less deep
+		}
+		for d := 0; d <= seedDepth && len(frontier) > 0; d++ {
 			if r.Expired() {
 				complete = false
 				break
@@ -617,7 +627,7 @@ func Run(r *fw.Run) {
 				sampleHist = append(sampleHist, strings.Join(names(outs[fresh[len(fresh)/2]].hist), " ; "))
 			}
 			var next [][]*op
-			if d < depth {
+			if d < seedDepth {
 				for _, i := range fresh {
 					for k := range alpha {
 						h := make([]*op, len(outs[i].hist)+1)
@@ -632,7 +642,7 @@ func Run(r *fw.Run) {
 			}
 			frontier = next
 		}
-		if len(frontier) == 0 && complete && st.Depth < depth {
+		if len(frontier) == 0 && complete && st.Depth < seedDepth {
 			st.Fixpoint = true
 		}
 		x := r.NewRec()
